@@ -11,7 +11,7 @@
 (***************************************************************************)
 EXTENDS RSocket
 
-CONSTANTS KindA, InitA, KindB, InitB, MaxElems, Credits, MaxGrants, HasPub, LibSource
+CONSTANTS KindA, InitA, KindB, InitB, MaxElems, Credits, MaxGrants, HasPub, LibSource, Frag
 
 VARIABLES mon, viol, dA, dB
 vars2 == <<mon, viol, dA, dB>>
